@@ -1,4 +1,5 @@
 import AndaVerif.Proofs.ConcLinE
+import AndaVerif.Proofs.ConcSaved
 /-
 Concrete handles and call sets used by the non-vacuity examples and the counterexamples of
 `Props/C05.lean`, with the proofs that they satisfy the theorems' hypotheses.
@@ -93,6 +94,8 @@ def shW : Shared :=
     maxId := 1, watermark := 65, ids := [1],
     store := fun i => if i = 1 then some (⟨5, 0, 0⟩, 1) else none, nextVer := 2,
     idxK := [(5, 1)], statVer := 1, savedVer := 1, inserts := 1,
+    pIds := some [1],
+    pMeta := some { maxId := 1, numDocs := 1, statVer := 1, inserts := 1, updates := 0, deletes := 0, ext := [] },
     hist := [(1, ⟨5, 0, 0⟩)], gdocs := fun i => if i = 1 then some ⟨5, 0, 0⟩ else none }
 
 /-- an update and a remove of document 1, an add of the key it holds, an add of a free key -/
@@ -126,6 +129,9 @@ theorem shW_Ghost : GhostInit shW := by
   funext i
   simp only [shW]
   by_cases hi : i = 1 <;> simp [hi]
+
+theorem shW_Saved : SavedInit shW := by
+  refine ⟨by decide, fun _ => ⟨rfl, rfl⟩⟩
 
 theorem opsW_OK : OpsOK shW.maxId opsW := by
   refine ⟨?_, ?_⟩
